@@ -14,6 +14,7 @@ func PayPerInterval(storeDriver store.BalanceStore, interval time.Duration, cred
 		Store:             storeDriver,
 		Interval:          interval,
 		CreditPerInterval: *creditPerInterval,
+		now:               time.Now,
 	}
 }
 
@@ -33,10 +34,12 @@ type payPerInterval struct {
 }
 
 func (b *payPerInterval) intervalCredit(lastSeen time.Time) *big.Int {
-	if b.now == nil {
-		b.now = time.Now
+	// Called by concurrent requests: only read b.now here.
+	now := b.now
+	if now == nil {
+		now = time.Now
 	}
-	delta := big.NewInt(int64(b.now().Sub(lastSeen)))
+	delta := big.NewInt(int64(now().Sub(lastSeen)))
 	interval := big.NewInt(int64(b.Interval))
 	credit := new(big.Int).Mul(delta, &b.CreditPerInterval)
 	return credit.Div(credit, interval)
